@@ -360,6 +360,22 @@ def c08_representation(ctx, d):
                 close(ctx, tag + '/retarget%d==rebuilt/aligned-source' % k, a.aligned_source().points, fresh.aligned_source().points, tol)
                 close(ctx, tag + '/retarget%d/target-is-the-new-target' % k, a.target.points, tg, 0)
             ctx.check_true(tag + '/passed-point-sets-not-modified', (snapshot(s_rep), snapshot(t_rep)) == snap)
+            if pname == 'readonly':
+                # the caller keeps ONE target object, overwrites its coordinates and hands the same object over again
+                buf = S.PointCloud(t_f1.copy())
+                a.set_target(buf)
+                for k, tg in enumerate((t_f2, t_f1 * 1.25 + 0.5)):
+                    buf.points[...] = tg
+                    a.set_target(buf)
+                    fresh = mk(src.copy(), tg.copy())
+                    close(ctx, tag + '/same-target-object-with-new-coordinates%d==rebuilt/map' % k, a.apply(x), fresh.apply(x), 1e-7)
+                    close(ctx, tag + '/same-target-object-with-new-coordinates%d==rebuilt/aligned-source' % k, a.aligned_source().points, fresh.aligned_source().points, 1e-7)
+                if cls == 'AlignmentSimilarity' and not opts:
+                    # in-place composition changes the map but not the target; re-fitting to its own target restores the fit
+                    b = mk(src.copy(), t_f1.copy())
+                    b.compose_after_inplace(T.Similarity.init_identity(d).compose_before(T.UniformScale(1.5, d)) if hasattr(T.Similarity, 'init_identity') else T.UniformScale(1.5, d))
+                    b.set_target(b.target)
+                    close(ctx, tag + '/refit-to-own-target-after-in-place-composition==rebuilt', b.apply(x), mk(src.copy(), np.array(b.target.points)).apply(x), 1e-7)
 
 
 # ------------------------------------------------------------------ C10 / C11
@@ -898,7 +914,8 @@ def c19_index_forms(ctx, n):
 
 # ------------------------------------------------------------------------ C16
 @contract('C16', 'shape_class_and_dtype_forms', level='bounded', native_samples=2,
-          configs=[dict(fmt=f, cls=c) for f in ('ljson', 'pkl') for c in ('PointDirectedGraph', 'PointTree', 'PointTree-root-not-0', 'PointCloud-int', 'PointCloud-float32', 'PointUndirectedGraph-int')],
+          configs=[dict(fmt=f, cls=c) for f in ('ljson', 'pkl') for c in ('PointDirectedGraph', 'PointTree', 'PointTree-root-not-0', 'PointCloud-int', 'PointCloud-float32', 'PointUndirectedGraph-int',
+                                                                          'PointUndirectedGraph-edge-deleted-in-place', 'PointUndirectedGraph-zero-weights-stored', 'Labelled-edge-deleted-in-place')],
           functions=['menpo.shape.graph:PointGraph.tojson', 'menpo.io.output.landmark:ljson_exporter', 'menpo.io.input.landmark:ljson_importer', 'menpo.io.output.pickle:pickle_export'])
 def c16_shape_forms(ctx, fmt, cls):
     """the round trip holds for every shape class (directed graphs and trees
@@ -918,8 +935,25 @@ def c16_shape_forms(ctx, fmt, cls):
         obj = S.PointCloud(P.astype(np.int64))
     elif cls == 'PointCloud-float32':
         obj = S.PointCloud((P + 0.25).astype(np.float32))
-    else:
+    elif cls == 'PointUndirectedGraph-int':
         obj = S.PointUndirectedGraph.init_from_edges(P.astype(np.int64), np.array([[0, 1], [1, 2], [3, 4]]))
+    elif cls in ('PointUndirectedGraph-edge-deleted-in-place', 'Labelled-edge-deleted-in-place'):
+        # a connection removed by writing 0 into the sparse adjacency matrix: scipy keeps an explicitly stored zero
+        obj = S.PointUndirectedGraph.init_from_edges(P + 0.25, np.array([[0, 1], [1, 2], [2, 3], [3, 4]]))
+        import warnings
+        with warnings.catch_warnings():
+            warnings.simplefilter('ignore')
+            obj.adjacency_matrix[1, 2] = 0
+            obj.adjacency_matrix[2, 1] = 0
+        if cls.startswith('Labelled'):
+            from collections import OrderedDict
+            obj = S.LabelledPointUndirectedGraph(obj.points, obj.adjacency_matrix, OrderedDict([('a', np.array([1, 1, 1, 0, 0], bool)), ('b', np.array([0, 0, 1, 1, 1], bool))]))
+        ctx.check_true('in-memory/edges==non-zero-entries', sorted(tuple(sorted(map(int, e))) for e in obj.edges) == [(0, 1), (2, 3), (3, 4)] and obj.n_edges == 3, str(np.asarray(obj.edges).tolist()))
+    else:
+        import scipy.sparse as sp
+        A = sp.csr_matrix((np.array([1., 0., 1., 1., 0., 1.]), (np.array([0, 1, 3, 1, 2, 4]), np.array([1, 2, 4, 0, 1, 3]))), shape=(5, 5))
+        obj = S.PointUndirectedGraph(P + 0.25, A)
+        ctx.check_true('in-memory/edges==non-zero-entries', sorted(tuple(sorted(map(int, e))) for e in obj.edges) == [(0, 1), (3, 4)] and obj.n_edges == 2, str(np.asarray(obj.edges).tolist()))
     with tempfile.TemporaryDirectory() as td:
         p = os.path.join(td, 'x.' + fmt)
         if fmt == 'ljson':
@@ -937,3 +971,177 @@ def c16_shape_forms(ctx, fmt, cls):
             ctx.check_true('same-undirected-edges', np.array_equal(Bk | Bk.T, A | A.T), '%s vs %s' % (np.argwhere(Bk | Bk.T).tolist(), np.argwhere(A | A.T).tolist()))
             if fmt == 'pkl':
                 ctx.check_true('pickle/same-class-and-directed-edges', type(back) is type(obj) and np.array_equal(Bk, A))
+
+
+# --------------------------------------------------- C01: alignment transforms
+@contract('C01', 'warp_with_alignment_transforms', level='bounded', native_samples=3,
+          configs=[dict(cls=c, tr=t) for c in ('Image', 'MaskedImage', 'BooleanImage')
+                   for t in ('AlignmentAffine', 'AlignmentSimilarity', 'AlignmentRotation', 'AlignmentTranslation', 'AlignmentUniformScale', 'ThinPlateSplines', 'PiecewiseAffine')],
+          functions=['menpo.image.base:Image.warp_to_shape', 'menpo.image.base:Image.warp_to_mask', 'menpo.transform.homogeneous.base:HomogFamilyAlignment.pseudoinverse'])
+def c01_warp_with_alignments(ctx, cls, tr):
+    """warping with an ALIGNMENT transform fitted to more correspondences than
+    it has degrees of freedom (a least-squares fit, not an exact one): the
+    returned transform maps the result landmarks back onto the source
+    landmarks, pixels are the source sampled at T(grid), the mask follows."""
+    from menpo.image import BooleanImage
+    T, S = B.menpo_mods()
+    rs = ctx.nprng
+    im = _img(rs, cls, shape=(12, 14), ch=2)
+    im.landmarks['g'] = S.PointCloud(np.array([[3., 4.], [6., 9.], [8., 3.], [5., 6.]]))
+    tshape = (9, 10)
+    ref = np.array([[1., 1.], [1., 8.], [7., 1.], [7., 8.], [4., 4.5], [2., 6.]])
+    A = np.array([[1.1, 0.15], [-0.1, 1.2]])
+    tgt = ref.dot(A.T) + np.array([1.0, 1.5]) + 0.15 * rs.randn(*ref.shape)       # noisy: no family member fits exactly
+    if tr == 'PiecewiseAffine':
+        t = T.PiecewiseAffine(S.PointCloud(np.array([[-1., -1.], [-1., 11.], [10., -1.], [10., 11.]])),
+                              S.PointCloud(np.array([[0.5, 0.5], [0., 12.5], [10.5, 1.], [11., 13.]])))
+    else:
+        t = getattr(T, tr)(S.PointCloud(ref), S.PointCloud(tgt))
+    for name, call in (('warp_to_shape', lambda: im.warp_to_shape(tshape, t, warp_landmarks=True, return_transform=True)),
+                       ('warp_to_mask', lambda: im.warp_to_mask(BooleanImage.init_blank(tshape), t, warp_landmarks=True, return_transform=True) if cls != 'BooleanImage' else None)):
+        out = call()
+        if out is None:
+            continue
+        res, rt = out
+        if tr != 'ThinPlateSplines':       # a TPS declares no true inverse: its landmarks go through an approximate one
+            close(ctx, name + '/T(result landmarks)==source landmarks', rt.apply(res.landmarks['g'].points), im.landmarks['g'].points, 1e-6)
+        else:
+            close(ctx, name + '/T(result landmarks)~source landmarks (TPS: approximate inverse)', rt.apply(res.landmarks['g'].points), im.landmarks['g'].points, 0.02)
+        idx = np.array(list(np.ndindex(*tshape)), dtype=float)
+        pts = rt.apply(idx)
+        if cls != 'BooleanImage':
+            exp = im.sample(pts, order=1, mode='constant', cval=0.0)
+            close(ctx, name + '/pixels[q]==Sample(src, T(q))', np.asarray(res.pixels).reshape(res.n_channels, -1), exp, 1e-9)
+        if cls == 'MaskedImage' and name == 'warp_to_shape':
+            expm = im.mask.sample(pts, mode='constant', cval=False)
+            ctx.check_true(name + '/mask[q]==Sample0(src.mask, T(q))', np.array_equal(np.asarray(res.mask.pixels).reshape(-1), np.asarray(expm).reshape(-1)))
+
+
+# --------------------------------------- C06: copies of alignments, any classes
+@contract('C06', 'alignment_copies_are_independent', level='bounded', native_samples=2,
+          configs=[dict(cls=c, src=s, tgt=t) for c in ('AlignmentTranslation', 'AlignmentUniformScale', 'AlignmentRotation', 'AlignmentSimilarity', 'AlignmentAffine',
+                                                       'ThinPlateSplines', 'PiecewiseAffine')
+                   for s in ('PointCloud', 'TriMesh') for t in ('PointCloud', 'PointUndirectedGraph', 'TriMesh')],
+          functions=['menpo.transform.homogeneous.base:HomogFamilyAlignment.copy', 'menpo.transform.base.alignment:Alignment._new_target_from_state',
+                     'menpo.transform.homogeneous.base:Homogeneous.from_vector', 'menpo.base:Targetable.set_target'])
+def c06_alignment_copies(ctx, cls, src, tgt):
+    """source and target point sets of any shape class (the target class may
+    differ from the source class): every public mutator applied to a copy of
+    an alignment (new parameters, new target, in-place composition, new
+    rotation matrix) leaves the original, the point sets the user passed and
+    the values of every earlier result unchanged - and the other way round."""
+    from .state import state_of, compare_states
+    T, S = B.menpo_mods()
+    rs = ctx.nprng
+    P = np.array([[0., 0.], [4., 0.], [0., 4.], [4., 4.], [2., 1.]])
+    Q = P.dot(np.array([[1.1, 0.2], [-0.15, 0.9]]).T) + np.array([0.5, -0.25]) + 0.1 * rs.randn(*P.shape)
+    tl = np.array([[0, 1, 4], [1, 3, 4], [3, 2, 4], [2, 0, 4]])
+
+    def wrap(kind, pts):
+        if kind == 'PointCloud':
+            return S.PointCloud(pts.copy())
+        if kind == 'TriMesh':
+            return S.TriMesh(pts.copy(), trilist=tl.copy())
+        return S.PointUndirectedGraph.init_from_edges(pts.copy(), np.array([[0, 1], [1, 3], [3, 2], [2, 0]]))
+    if cls == 'PiecewiseAffine' and src != 'TriMesh':
+        pass            # PWA triangulates a bare source itself
+    s_obj, t_obj = wrap(src, P), wrap(tgt, Q)
+    a = getattr(T, cls)(s_obj, t_obj)
+    x = P[:3] * 0.5 + 0.3
+    muts = []
+    if hasattr(a, 'from_vector') and cls not in ('ThinPlateSplines', 'PiecewiseAffine', 'AlignmentRotation'):      # (2-D rotations are not vectorizable)
+        v = np.asarray(a.as_vector(), dtype=float)
+        muts.append(('from_vector_inplace', lambda z: z._from_vector_inplace(v * 1.1 + 0.05)))
+        muts.append(('from_vector', lambda z: z.from_vector(v * 0.9 - 0.05)))
+    muts.append(('set_target', lambda z: z.set_target(wrap(tgt, Q * 1.2 + 0.3))))
+    if cls == 'AlignmentAffine':
+        muts.append(('compose_after_inplace', lambda z: z.compose_after_inplace(T.Affine(np.array([[1., 0.2, 0.3], [0., 1.1, -0.2], [0., 0., 1.]])))))
+    if cls == 'AlignmentRotation':
+        muts.append(('set_rotation_matrix', lambda z: z.set_rotation_matrix(np.array([[0., -1.], [1., 0.]]))))
+    if cls == 'AlignmentSimilarity':
+        muts.append(('compose_before_inplace', lambda z: z.compose_before_inplace(T.UniformScale(1.3, 2))))
+    for mname, mut in muts:
+        for side in ('copy', 'original'):
+            o = getattr(T, cls)(wrap(src, P), wrap(tgt, Q))
+            passed_t, passed_s = o.target, o.source
+            c = o.copy()
+            x_, y_ = (c, o) if side == 'copy' else (o, c)
+            ref = state_of(y_)
+            ref_map = np.array(y_.apply(x), copy=True)
+            ref_t, ref_s = np.array(y_.target.points, copy=True), np.array(y_.source.points, copy=True)
+            mut(x_)
+            tag = '%s/on-the-%s' % (mname, side)
+            compare_states(ctx, tag + '/other-side-unchanged', state_of(y_), ref)
+            close(ctx, tag + '/other-side-same-map', y_.apply(x), ref_map, 0)
+            close(ctx, tag + '/other-side-target-points', y_.target.points, ref_t, 0)
+            close(ctx, tag + '/other-side-source-points', y_.source.points, ref_s, 0)
+            if side == 'copy':
+                close(ctx, tag + '/target-object-the-user-passed-keeps-its-coordinates', passed_t.points, Q, 0)
+                close(ctx, tag + '/source-object-the-user-passed-keeps-its-coordinates', passed_s.points, P, 0)
+
+
+# ----------------------------- C04 / C07: objects derived from an alignment
+def _derived_objects_do_not_alias(ctx, cls, d):
+    """whatever is done to an object DERIVED from an alignment (its
+    pseudoinverse re-targeted or re-parametrised, its aligned source edited in
+    place, its copy composed in place) the alignment itself keeps its fitted
+    map: same matrix / same answers as before, still equal to a fresh fit."""
+    T, S = B.menpo_mods()
+    rs = ctx.nprng
+    n = 5 if d == 2 else 6
+    src = rs.randn(n, d) * 2
+    if cls == 'PiecewiseAffine':
+        src = np.array([[0., 0.], [4., 0.], [0., 4.], [4., 4.], [2., 1.]])
+    L = np.eye(d) + 0.25 * rs.randn(d, d)
+    tgt = src.dot(L.T) + rs.randn(d) + 0.1 * rs.randn(*src.shape)
+    other = src * 1.3 + 0.2 * rs.randn(*src.shape) - 0.5
+    x = src[:3] * 0.5 + 0.1 if cls == 'PiecewiseAffine' else rs.randn(4, d)
+    mk = lambda: getattr(T, cls)(S.PointCloud(src.copy()), S.PointCloud(tgt.copy()))
+    fresh_map = mk().apply(x)
+    for label, derive_and_abuse in (
+        ('pseudoinverse.set_target', lambda a: a.pseudoinverse().set_target(S.PointCloud(other.copy()))),
+        ('pseudoinverse.pseudoinverse.set_target', lambda a: a.pseudoinverse().pseudoinverse().set_target(S.PointCloud(other.copy()))),
+        ('pseudoinverse-matrix-written-in-place', lambda a: _poke_matrix(a.pseudoinverse())),
+        ('copy.set_target', lambda a: a.copy().set_target(S.PointCloud(other.copy()))),
+        ('aligned_source-edited-in-place', lambda a: a.aligned_source().points.__setitem__(Ellipsis, 0.0)),
+        ('copy-matrix-written-in-place', lambda a: _poke_matrix(a.copy())),
+    ):
+        a = mk()
+        before = np.array(a.apply(x), copy=True)
+        tp, sp = np.array(a.target.points, copy=True), np.array(a.source.points, copy=True)
+        derive_and_abuse(a)
+        close(ctx, label + '/alignment-keeps-its-map', a.apply(x), before, 0)
+        close(ctx, label + '/still-the-fresh-fit', a.apply(x), fresh_map, 1e-9)
+        close(ctx, label + '/target-kept', a.target.points, tp, 0)
+        close(ctx, label + '/source-kept', a.source.points, sp, 0)
+        close(ctx, label + '/aligned-source-consistent', a.aligned_source().points, a.apply(sp), 1e-9)
+    a = mk()
+    inv = a.pseudoinverse()
+    if hasattr(a, 'h_matrix'):
+        ctx.check_true('pseudoinverse-matrix-shares-no-memory-with-the-alignment', not np.shares_memory(inv.h_matrix, a.h_matrix))
+        ctx.check_true('copy-matrix-shares-no-memory-with-the-alignment', not np.shares_memory(a.copy().h_matrix, a.h_matrix))
+
+
+def _poke_matrix(t):
+    if hasattr(t, '_h_matrix'):
+        t._h_matrix[...] = t._h_matrix * 0.5 + 0.25
+    return t
+
+
+_DER_CFGS = [dict(cls=c, d=d) for c in ('AlignmentTranslation', 'AlignmentUniformScale', 'AlignmentRotation', 'AlignmentSimilarity', 'AlignmentAffine',
+                                        'ThinPlateSplines', 'PiecewiseAffine') for d in (2, 3) if not (c in ('ThinPlateSplines', 'PiecewiseAffine') and d == 3)]
+_DER_FUNCS = ['menpo.transform.homogeneous.base:HomogFamilyAlignment.pseudoinverse', 'menpo.transform.homogeneous.base:Homogeneous._h_matrix_pseudoinverse',
+              'menpo.transform.homogeneous.base:HomogFamilyAlignment.copy', 'menpo.transform.base.alignment:Alignment.aligned_source']
+
+
+@contract('C04', 'derived_objects_do_not_alias', level='bounded', native_samples=2, configs=_DER_CFGS, functions=_DER_FUNCS)
+def c04_derived(ctx, cls, d):
+    """(C04) the pseudoinverse is an object of its own."""
+    _derived_objects_do_not_alias(ctx, cls, d)
+
+
+@contract('C07', 'fit_survives_use_of_derived_objects', level='bounded', native_samples=2, configs=_DER_CFGS, functions=_DER_FUNCS)
+def c07_derived(ctx, cls, d):
+    """(C07) an alignment stays the fit of its own source and target whatever
+    is done to its pseudoinverse, copies and aligned source."""
+    _derived_objects_do_not_alias(ctx, cls, d)
